@@ -191,6 +191,15 @@ func (eval Evaluator) MultiplyByDiagMatrix(ctIn *rlwe.Ciphertext, matrix LinearT
 		keys = keys[1:]
 	}
 
+	if len(keys) == 0 {
+		// Diagonal 0 is the only diagonal: nothing is accumulated below, so the
+		// accumulators (the receiver and a scratch buffer) must not be read as they are.
+		c0OutQP.Q.Zero()
+		c0OutQP.P.Zero()
+		c1OutQP.Q.Zero()
+		c1OutQP.P.Zero()
+	}
+
 	for i, k := range keys {
 
 		k &= (slots - 1)
